@@ -34,6 +34,12 @@
 //	             kind can receive), then the subject
 //	h-dialstall  the mirror image of f: the subject dials a raw listener that accepts and
 //	             stays silent ("pre") or completes TLS and then stays silent ("posttls")
+//	i-pending    peers that completed the transport level handshake wait to be accepted
+//	j-handler    ws / wss listener whose handler is mounted on the application's HTTP server
+//	k-txblock    the pipe's sender is blocked inside the transport write: a raw peer completed
+//	             the handshake / upgrade, reads nothing and stays connected; messages are sent
+//	             until the kernel buffers are full (inproc: a peer socket that does not Recv
+//	             and is closed only after the subject)
 //
 // Oracle, evaluated after Close() on ALL sockets of the case (worker.go); wall clock is used
 // only as a generous watchdog (20 s per blocking call) and as a polling bound (10 s census):
@@ -236,6 +242,24 @@ var situations = []*situation{
 	// (GetOption(OptionWebSocketHandler)): the listener runs no server of its own
 	{id: "j-handler", scenario: "close-handler-mode", roles: []string{"L"}, variants: func(*tran) []string { return []string{"idle", "recv"} },
 		applies: func(t *tran, _ *kind) bool { return t.http }},
+	// the pipe's sender is blocked INSIDE THE TRANSPORT WRITE: the peer is a raw endpoint of the
+	// harness that completed the handshake (TLS, SP header / WebSocket upgrade) and then reads
+	// nothing and stays connected until the census is over; 64 KiB messages are sent until the
+	// kernel buffers are full.  Nothing but the subject's own Close can release the connection
+	// (in d-send the peer is a mangos socket that is closed right after the subject, which
+	// releases whatever the subject's Close left behind).  inproc has no kernel buffer: the peer
+	// is a mangos socket that does not Recv and is closed only after the subject's Close has
+	// released the blocked Send and the peer has seen the pipe go away.
+	{id: "k-txblock", scenario: "close-blocked-transport-write", roles: bothRoles, variants: noVariant,
+		applies: func(t *tran, k *kind) bool {
+			if k.hdr == hdrPipe || k.name == "rep" || k.name == "respondent" {
+				return false // these send only in reply to a request
+			}
+			if t.family == "inproc" {
+				return k.blocks
+			}
+			return k.canSend
+		}},
 	{id: "i-pending", scenario: "close-pending-accept", roles: []string{"L"}, variants: func(*tran) []string { return []string{"1", "3"} }, // peers waiting to be accepted
 		applies: func(_ *tran, k *kind) bool { return k.name != "pair" && k.name != "xpair" && k.name != "pair1" && k.name != "xpair1" }},
 }
